@@ -688,6 +688,40 @@ func (f *FuncCFG) resolve(e ast.Expr, pt Point, intoHelpers bool) (ast.Expr, Poi
 			}
 			break
 		}
+		// a field of a value that resolves to a composite literal with that field keyed: the field's
+		// expression (`u := helper(); ... u.diff` with helper returning `result{diff: x, ...}`)
+		if se, isSel := ast.Unparen(e).(*ast.SelectorExpr); isSel {
+			if sel := f.Info.Selections[se]; sel != nil && sel.Kind() == types.FieldVal {
+				if _, baseIsIdent := ast.Unparen(se.X).(*ast.Ident); baseIsIdent {
+					be, bpt := f.resolve(se.X, pt, intoHelpers)
+					if be != se.X {
+						var lit *ast.CompositeLit
+						switch y := ast.Unparen(be).(type) {
+						case *ast.CompositeLit:
+							lit = y
+						case *ast.UnaryExpr:
+							if y.Op == token.AND {
+								lit, _ = ast.Unparen(y.X).(*ast.CompositeLit)
+							}
+						}
+						if lit != nil {
+							found := false
+							for _, el := range lit.Elts {
+								if kv, isKV := el.(*ast.KeyValueExpr); isKV {
+									if k, isId := kv.Key.(*ast.Ident); isId && k.Name == se.Sel.Name {
+										e, pt, found = kv.Value, bpt, true
+									}
+								}
+							}
+							if found {
+								continue
+							}
+						}
+					}
+				}
+			}
+			break
+		}
 		id, ok := ast.Unparen(e).(*ast.Ident)
 		if !ok {
 			break
@@ -701,6 +735,24 @@ func (f *FuncCFG) resolve(e ast.Expr, pt Point, intoHelpers bool) (ast.Expr, Poi
 		}
 		defs, fromEntry := f.ReachingDefs(pt, obj)
 		if len(defs) == 1 && !fromEntry {
+			// one result of a tuple assignment from a spliced helper with a single return site: the
+			// matching result expression of that return
+			if as, isAs := f.nodeAt(defs[0].At).(*ast.AssignStmt); isAs && len(as.Rhs) == 1 && len(as.Lhs) > 1 && intoHelpers {
+				if c, isCall := ast.Unparen(as.Rhs[0]).(*ast.CallExpr); isCall {
+					if reg := f.regionByCall(c); reg != nil && len(reg.rets) == 1 && len(reg.rets[0].results) == len(as.Lhs) {
+						li := -1
+						for k, l := range as.Lhs {
+							if objOfIdentRaw(f.Info, l) == obj {
+								li = k
+							}
+						}
+						if li >= 0 {
+							e, pt = reg.rets[0].results[li], reg.rets[0].pt
+							continue
+						}
+					}
+				}
+			}
 			if c, isCall := ast.Unparen(defs[0].Rhs).(*ast.CallExpr); isCall && !pureExpr(f.Info, defs[0].Rhs) {
 				// a value produced by a call: the call is what it stands for (unless the call is
 				// an expanded single-return helper, handled at the top of the loop)
@@ -739,6 +791,12 @@ func (f *FuncCFG) KeyAt(e ast.Expr, pt Point) string { return f.keyAt(e, pt, 6) 
 
 func (f *FuncCFG) keyAt(e ast.Expr, pt Point, depth int) string {
 	if _, isCall := ast.Unparen(e).(*ast.CallExpr); isCall && depth > 0 {
+		if re, rpt := f.Resolve(e, pt); re != e {
+			return f.keyAt(re, rpt, depth-1)
+		}
+	}
+	if _, isSel := ast.Unparen(e).(*ast.SelectorExpr); isSel && depth > 0 {
+		// a field of a struct result that resolves to the keyed element of a composite literal
 		if re, rpt := f.Resolve(e, pt); re != e {
 			return f.keyAt(re, rpt, depth-1)
 		}
@@ -1759,43 +1817,120 @@ func (f *FuncCFG) AtomCall(e ast.Expr, pt Point) (*ast.CallExpr, int) {
 // short-circuit structure go/cfg does not expose - independent of how the guard is spelled
 // (one condition, nested ifs, a switch).
 func (f *FuncCFG) ReturnsUnder(assign map[string]bool) map[string]bool {
-	eval := func(e ast.Expr) (bool, bool) { return evalCond(e, assign) }
 	out := map[string]bool{}
-	seen := map[*cfg.Block]bool{}
-	var walk func(b *cfg.Block)
-	walk = func(b *cfg.Block) {
-		if seen[b] || !b.Live {
+	type retsTaken map[*region]*retInfo
+	seen := map[string]bool{}
+	// the value of a condition at pt: by the assignment; a call of a spliced helper stands for the
+	// result expression of the return taken on this path (recursively)
+	var eval func(e ast.Expr, pt Point, taken retsTaken, depth int) (bool, bool)
+	eval = func(e ast.Expr, pt Point, taken retsTaken, depth int) (bool, bool) {
+		e = ast.Unparen(e)
+		if depth <= 0 {
+			return false, false
+		}
+		switch x := e.(type) {
+		case *ast.UnaryExpr:
+			if x.Op == token.NOT {
+				v, k := eval(x.X, pt, taken, depth)
+				return !v, k
+			}
+		case *ast.BinaryExpr:
+			if x.Op == token.LAND || x.Op == token.LOR {
+				a, ka := eval(x.X, pt, taken, depth)
+				b, kb := eval(x.Y, pt, taken, depth)
+				if x.Op == token.LAND {
+					switch {
+					case ka && !a, kb && !b:
+						return false, true
+					case ka && kb:
+						return true, true
+					}
+					return false, false
+				}
+				switch {
+				case ka && a, kb && b:
+					return true, true
+				case ka && kb:
+					return false, true
+				}
+				return false, false
+			}
+		case *ast.CallExpr:
+			if reg := f.regionByCall(x); reg != nil {
+				if rt := taken[reg]; rt != nil && len(rt.results) == 1 {
+					return eval(rt.results[0], rt.pt, taken, depth-1)
+				}
+			}
+		}
+		if v, k := f.evalAt(e, pt, assign, 3); k {
+			return v, true
+		}
+		return evalCond(e, assign)
+	}
+	var walk func(b *cfg.Block, taken retsTaken)
+	walk = func(b *cfg.Block, taken retsTaken) {
+		if !b.Live {
 			return
 		}
-		seen[b] = true
-		for _, n := range b.Nodes {
-			if rs, ok := n.(*ast.ReturnStmt); ok {
+		fp := fmt.Sprintf("%p", b)
+		for r, t := range taken {
+			fp += fmt.Sprintf("|%p:%p", r, t)
+		}
+		if seen[fp] {
+			return
+		}
+		seen[fp] = true
+		for i, n := range b.Nodes {
+			if reg := f.regionOf[b]; reg != nil {
+				for ri := range reg.rets {
+					if reg.rets[ri].pt.B == b && reg.rets[ri].pt.I == i {
+						nt := retsTaken{}
+						for k, v := range taken {
+							nt[k] = v
+						}
+						nt[reg] = &reg.rets[ri]
+						taken = nt
+					}
+				}
+			}
+			if rs, ok := n.(*ast.ReturnStmt); ok && f.regionOf[b] == nil {
 				var ks []string
 				for _, res := range rs.Results {
-					ks = append(ks, exprKey(res))
+					k := exprKey(res)
+					// `return helper(...)` with the helper spliced: the literal it returned on this path
+					if c, isCall := ast.Unparen(res).(*ast.CallExpr); isCall {
+						if reg := f.regionByCall(c); reg != nil {
+							if rt := taken[reg]; rt != nil && len(rt.results) == 1 {
+								if v, known := eval(rt.results[0], rt.pt, taken, 4); known {
+									k = fmt.Sprint(v)
+								}
+							}
+						}
+					}
+					ks = append(ks, k)
 				}
 				out[strings.Join(ks, ",")] = true
 			}
 		}
 		c := condOf(b)
-		if c != nil {
+		if c != nil && len(b.Succs) == 2 {
 			if tag, ok := caseTagOf[c]; ok {
 				c = &ast.BinaryExpr{X: tag, Op: token.EQL, Y: c}
 			}
-			if v, known := eval(c); known {
+			if v, known := eval(c, Point{b, len(b.Nodes) - 1}, taken, 4); known {
 				if v {
-					walk(b.Succs[0])
+					walk(b.Succs[0], taken)
 				} else {
-					walk(b.Succs[1])
+					walk(b.Succs[1], taken)
 				}
 				return
 			}
 		}
 		for _, sc := range b.Succs {
-			walk(sc)
+			walk(sc, taken)
 		}
 	}
-	walk(f.G.Blocks[0])
+	walk(f.G.Blocks[0], retsTaken{})
 	return out
 }
 
